@@ -333,3 +333,10 @@ func init() {
 		},
 	})
 }
+
+func init() {
+	register(map[string]externalFn{
+		"internal/abi.NoEscape": func(fr *frame, a []value) value { return a[0] },
+		"internal/abi.Escape":   func(fr *frame, a []value) value { return a[0] },
+	})
+}
